@@ -318,20 +318,25 @@ def main():
         check_caller(interp, meta, V, cov)
     except Unsupported as e:
         V.add("contexts", "inconclusive", detail=f"MIR construct outside the interpreter's subset: {e}")
+    import c07_mem
+    c07_mem.run(V, cov)
     c = V.counts()
     coverage = dict(
-        states=cov["paths"], transitions=c.get("discharged", 0), traces_validated_against_impl=0,
+        states=cov["paths"], transitions=c.get("discharged", 0), traces_validated_against_impl=cov.get("native", 0),
+        memory=dict(sequences=len(c07_mem.sequences()), paths=cov.get("mem_paths", 0), queries=cov.get("mem_queries", 0),
+                    what="every sequence of <= 3 (quick) / <= 4 (thorough) accesses over {read, write, element store} plus double-word reads/writes, symbolic context ids, addresses, words and clock, followed by a probe at an arbitrary (context, address); BTreeMaps as association lists with solver-decided key comparisons"),
         samples=V.obligations[:6] + [o for o in V.obligations if o["status"] != "discharged"][:4],
         obligations=len(V.obligations), discharged=c.get("discharged", 0),
         functions_encoded=["Process::execute_call_block, start_call_block, end_call_block (MIR)", "System::start_call/start_syscall/restore_context (MIR)",
-                           "ExecutionContextInfo::new (MIR)", "get_valid_address, op_caller (MIR)"],
-        bounds="one call / syscall from an arbitrary state with 2 caller items below the top 16; callee opaque (replaces the visible stack, may leave depth 16 or 17, may fail)",
-        not_covered="memory read/write semantics of the processor (BTreeMap-backed; the memory chiplet's constraints are in C04), dyncall/dynexec target lookup, locals via fmp in the assembler",
-        sources_fingerprint=repo_fingerprint(["processor/src/lib.rs", "processor/src/decoder/mod.rs", "processor/src/system/mod.rs"]),
+                           "ExecutionContextInfo::new (MIR)", "get_valid_address, op_caller (MIR)",
+                           "Chiplets::read_mem/read_mem_double/write_mem/write_mem_double/write_mem_element, Memory::read/write/get_value/get_old_value, MemorySegmentTrace::read/write/get_value + closures, MemorySegmentAccess::new/value (MIR)"],
+        bounds="one call / syscall from an arbitrary state with 2 caller items below the top 16; callee opaque (replaces the visible stack, may leave depth 16 or 17, may fail); memory: access sequences of the listed lengths on a fresh memory (longer histories are outside the claim)",
+        not_covered="which context / address a memory operation passes to the memory (decided under C05), memory histories longer than the bound, the memory chiplet's constraints (C04), dyncall/dynexec target lookup, locals via fmp in the assembler",
+        sources_fingerprint=repo_fingerprint(["processor/src/lib.rs", "processor/src/decoder/mod.rs", "processor/src/system/mod.rs", "processor/src/chiplets/memory", "processor/src/chiplets/mod.rs"]),
         evaluations=len(V.obligations), distinct_nontrivial=c.get("discharged", 0), rule="one obligation per (block kind, path, fact)",
     )
     write_evidence(PROP, "model_checking", coverage, ["decoder block stack modelled as a LIFO of the context records passed to start_call/start_syscall",
-                                                      "Stack::start_context/restore_context modelled on the abstract stack"], time.time() - t0, violations=len(V.violations))
+                                                      "Stack::start_context/restore_context modelled on the abstract stack", "BTreeMap (entry / or_default / and_modify / or_insert_with / get) modelled as an association list; vec![x] lowering (Box::new_uninit + box_assume_init_into_vec_unsafe) modelled as a one-element list"], time.time() - t0, violations=len(V.violations))
     V.finish()
 
 
